@@ -126,13 +126,25 @@ def prepare(ctx: core.Ctx) -> None:
     memo: dict = {}
 
     def lc(path, *a, **k):
-        key = os.path.abspath(path)
+        ap = os.path.abspath(path)
+        root = os.path.abspath(dbm.SPSDK_DATA_FOLDER)
+        st = os.stat(ap)
+        # a private (hard-linked) copy of the data folder shares the entries of unchanged files; a changed file is re-read
+        key = (os.path.relpath(ap, root) if ap.startswith(root + os.sep) else ap, st.st_mtime_ns, st.st_size)
         if key not in memo:
             memo[key] = real_lc(path, *a, **k)
         from copy import deepcopy
 
         return deepcopy(memo[key])
 
+    # pristine private copy of the data folder (hard links when possible; per-case copies are hard links of this one)
+    data0 = os.path.join(work, "data0")
+    try:
+        shutil.copytree(spsdk.SPSDK_DATA_FOLDER, data0, copy_function=os.link)
+    except OSError:
+        shutil.rmtree(data0, ignore_errors=True)
+        shutil.copytree(spsdk.SPSDK_DATA_FOLDER, data0, copy_function=shutil.copy2)
+    _Z["data0"] = data0
     _Z["real_lc"] = real_lc
     _Z["memo_lc"] = lc
     dbm.load_configuration = lc
@@ -159,6 +171,15 @@ def prepare(ctx: core.Ctx) -> None:
         devs_all = names
     n = len(devs_all)
     _Z["devs"] = [devs_all[i] for i in sorted({0, n // 5, 2 * n // 5, 3 * n // 5, 4 * n // 5, n - 1})]
+
+    # the source-edit family edits the database file of the first and of the last device of the battery: both must have
+    # features of their own (an alias device has none) - move to the next device in the list until they do
+    def own_features(d: str) -> bool:
+        f = os.path.join(spsdk.SPSDK_DATA_FOLDER, "devices", d, "database.yaml")
+        return os.path.exists(f) and bool((real_lc(f) or {}).get("features"))
+
+    for pos, rng in ((0, range(0, n)), (-1, range(n - 1, -1, -1))):
+        _Z["devs"][pos] = next(devs_all[i] for i in rng if own_features(devs_all[i]) and (devs_all[i] not in _Z["devs"] or devs_all[i] == _Z["devs"][pos]))
     # schema files etc. go through load_db_cfg_file -> warm the memo for them too
     def ref():
         _child_env(os.path.join(work, "ref1"), disabled=True)
@@ -413,11 +434,12 @@ def w_sched(case: dict) -> dict:
             _child_env(cdir)
             return battery(_Z["devs"], True)
 
-        tr = procsched.run_schedule(case["n"], body, cdir, tuple(case["prefix"]))
+        kill = case.get("kill")
+        tr = procsched.run_schedule(case["n"], body, cdir, tuple(case["prefix"]), kills={kill[0]: kill[1]} if kill else None)
         viol = []
         if tr.diverged:
             return {"__crash__": f"schedule prefix diverged: {case}", "tb": ""}
-        tag = f"n={case['n']},init={case['init']}"
+        tag = f"n={case['n']},init={case['init']}" + (",peer-killed" if kill else "")
         if tr.deadlock:
             viol.append(("C18.deadlock", tag, f"{case}: no enabled process; last ops {[p['op'] for p in tr.points[-6:]]}"))
         if tr.horizon:
@@ -426,9 +448,12 @@ def w_sched(case: dict) -> dict:
         for i, r in enumerate(tr.results):
             if tr.deadlock or tr.horizon:
                 break
+            if isinstance(r, dict) and r.get("killed"):
+                outs.append(f"killed@{r['at'][0]}:{_short(r['at'][1])}")
+                continue
             if isinstance(r, dict) and "exception" in r:
                 exc = r["exception"].split(":")[0]
-                viol.append(("C18.concurrent-start-fatal", f"{_loader(r.get('tb', ''))}->{exc}",
+                viol.append(("C18.peer-killed-fatal" if kill else "C18.concurrent-start-fatal", f"{_loader(r.get('tb', ''))}->{exc}",
                              f"{case}: process {i}: {r['exception']}\n{r.get('tb', '')[-600:]}\nschedule tail {[p['op'] for p in tr.points[-8:]]}"))
                 outs.append("fatal:" + exc)
             elif r != _Z["qref_light"]:
@@ -436,21 +461,170 @@ def w_sched(case: dict) -> dict:
                 outs.append("skew")
             else:
                 outs.append("ok")
+        if kill and tr.killed and not (tr.deadlock or tr.horizon):
+            # whatever the killed process left behind is the start state of the next process
+            tr2 = procsched.run_schedule(1, body, cdir, ())
+            r = tr2.results[0]
+            if isinstance(r, dict) and "exception" in r:
+                exc = r["exception"].split(":")[0]
+                viol.append(("C18.peer-killed-fatal", f"next-process:{_loader(r.get('tb', ''))}->{exc}", f"{case}: the process started after the kill: {r['exception']}\n{r.get('tb', '')[-600:]}"))
+                outs.append("next-fatal:" + exc)
+            elif r != _Z["qref_light"]:
+                viol.append(("C18.peer-killed-skews", "next-process", f"{case}: the process started after the kill answers differently"))
+                outs.append("next-skew")
+            else:
+                outs.append("next-ok")
         after = {}
         for f in (sorted(os.listdir(cdir)) if os.path.isdir(cdir) else []):
             if f.endswith(".cache"):
                 v = file_valid(os.path.join(cdir, f))
                 after[_short(f)] = v
-                if v not in ("valid", "absent") and not (tr.deadlock or tr.horizon) and all(o == "ok" for o in outs):
+                if v not in ("valid", "absent") and not (tr.deadlock or tr.horizon) and all(o in ("ok", "next-ok") or o.startswith("killed@") for o in outs):
                     viol.append(("C18.damaged-cache-left", f"sched:{_short(f)}:{v.split(':')[0]}", f"{case}"))
         succ = procsched.successors(tr, len(case["prefix"]), case["bound"])
-        return {"viol": core.dedupe(viol), "succ": succ, "points": len(tr.points), "distinct": [tag + "|" + ",".join(outs) + "|" + core.jdump(after)],
+        return {"viol": core.dedupe(viol), "succ": succ, "points": len(tr.points), "killed": tr.killed, "own_points": [sum(1 for p in tr.points if p["op"][0] == i) for i in range(case["n"])], "distinct": [tag + "|" + ",".join(outs) + "|" + core.jdump(after)],
                 "ops": [p["op"][:3] for p in tr.points] if not case["prefix"] else None}
     finally:
         shutil.rmtree(top, ignore_errors=True)
 
 
 # ---------------------------------------------------------------------------------------------
+# Part C: the cache turned stale because its SOURCES changed (the data folder was edited / upgraded in place)
+
+SRC_EDITS = ["defaults", "dev0", "devlast", "sch_mbi", "sch_cert_block"]
+
+
+def _edit_target(name: str) -> str:
+    if name == "defaults":
+        return os.path.join("common", "database_defaults.yaml")
+    if name == "dev0":
+        return os.path.join("devices", _Z["devs"][0], "database.yaml")
+    if name == "devlast":
+        return os.path.join("devices", _Z["devs"][-1], "database.yaml")
+    return os.path.join("jsonschemas", f"{name}.yaml")
+
+
+def _apply_edit(data: str, name: str, gen: int, revert: bool = False) -> None:
+    """Replace one source file of the private data folder by an edited version (new inode: the hard-linked original stays
+    untouched), with a deterministic new mtime.  revert=True writes the ORIGINAL content back (only the mtime is new)."""
+    import yaml
+
+    rel = _edit_target(name)
+    path = os.path.join(data, rel)
+    orig = os.path.join(_Z["data0"], rel)
+    st0 = os.stat(orig)
+    if revert:
+        text = open(orig, "rb").read()
+    else:
+        cfg = _Z["real_lc"](orig)
+        cfg = json.loads(json.dumps(cfg, default=str))
+        if name == "defaults":
+            cfg["features"]["comm_buffer"]["size"] = 0x2000 + gen
+            cfg["features"]["comm_buffer"]["vf_marker"] = gen
+        elif name.startswith("dev"):
+            feats = cfg.setdefault("features", {})
+            first = sorted(feats)[0]
+            if not isinstance(feats[first], dict):
+                feats[first] = {}
+            feats[first]["vf_marker"] = gen
+        else:
+            cfg["vf_marker"] = {"type": "string", "title": f"marker {gen}"}
+        text = yaml.safe_dump(cfg, sort_keys=False).encode()
+    tmp = path + ".vfnew"
+    with open(tmp, "wb") as f:
+        f.write(text)
+    t = st0.st_mtime_ns + (gen + 1) * 1_000_000_000
+    os.utime(tmp, ns=(t, t))
+    os.replace(tmp, path)
+
+
+def w_source(case: dict) -> dict:
+    import spsdk.utils.database as dbm
+
+    top = tempfile.mkdtemp(prefix="src", dir=_Z["work"])
+    try:
+        data = os.path.join(top, "data")
+        shutil.copytree(_Z["data0"], data, copy_function=os.link)
+        cdir = os.path.join(top, "cache")
+        os.makedirs(cdir)
+        nref = [0]
+
+        def proc(light: bool, disabled: bool = False) -> Any:
+            if disabled:
+                nref[0] += 1
+                c = os.path.join(top, f"ref{nref[0]}")
+                os.makedirs(c)
+            else:
+                c = cdir
+
+            def body():
+                _child_env(c, disabled=disabled)
+                dbm.SPSDK_DATA_FOLDER = data
+                return battery(_Z["devs"], light)
+
+            return in_child(body)
+
+        viol = []
+        outs = []
+        r = proc(case["warm"] == "light")
+        if isinstance(r, dict) and "exception" in r:
+            return {"__crash__": f"warm-up failed: {r['exception']}", "tb": r.get("tb", "")}
+        applied: list = []
+        observable = False
+        for si, step in enumerate(case["steps"]):
+            for name in step["edits"]:
+                rv = name.startswith("revert:")
+                _apply_edit(data, name.split(":")[-1], si, revert=rv)
+                applied.append(name)
+            light = step["battery"] == "light"
+            got = proc(light)
+            ref = proc(light, disabled=True)
+            if isinstance(ref, dict) and "exception" in ref:
+                return {"__crash__": f"reference run failed after {applied}: {ref['exception']}", "tb": ref.get("tb", "")}
+            if ref != (_Z["qref_light"] if light else _Z["qref"]):
+                observable = True
+            tagd = "+".join(n.split(":")[0] if n.startswith("revert:") else n for n in step["edits"])
+            if isinstance(got, dict) and "exception" in got:
+                exc = got["exception"].split(":")[0]
+                viol.append(("C18.stale-source-fatal", f"{tagd}->{exc}", f"{case}: after edits {applied}: {got['exception']}\n{got.get('tb', '')[-600:]}"))
+                outs.append("fatal")
+            elif got != ref:
+                diff = sorted(k for k in set(got) | set(ref) if got.get(k) != ref.get(k))
+                cls = sorted({k.split(":")[0] for k in diff})
+                viol.append(("C18.stale-source-trusted", f"{tagd}->{','.join(cls)}",
+                             f"{case}: after the source edits {applied} the process with the cache answers {diff[:6]} differently from a cache-disabled process"))
+                outs.append("stale:" + ",".join(cls))
+            else:
+                outs.append("ok")
+        after = {}
+        for f in sorted(os.listdir(cdir)):
+            if f.endswith(".cache"):
+                after[_short(f)] = "valid" if file_valid(os.path.join(cdir, f)) == "valid" else "other"
+        return {"viol": core.dedupe(viol), "observable": observable, "procs": 1 + 2 * len(case["steps"]),
+                "distinct": [f"src|warm={case['warm']}|" + ";".join("+".join(st["edits"]) + "/" + st["battery"] for st in case["steps"]) + "|" + ",".join(outs)]}
+    finally:
+        shutil.rmtree(top, ignore_errors=True)
+
+
+def source_cases(tier: str) -> list:
+    out = []
+    warms = ["light", "full"]
+    bats = ["full"] if tier == "quick" else ["light", "full"]
+    firsts = [[e] for e in SRC_EDITS] + [["defaults", "sch_mbi"]]
+    for w in warms:
+        for b in bats:
+            for i, e1 in enumerate(firsts):
+                seconds: list = [None, ["revert:" + e1[0]]]
+                if tier == "quick":
+                    seconds.append([SRC_EDITS[(i + 1) % len(SRC_EDITS)]])
+                else:
+                    seconds += [[e] for e in SRC_EDITS]
+                for e2 in seconds:
+                    steps = [{"edits": e1, "battery": b}]
+                    if e2:
+                        steps.append({"edits": e2, "battery": b})
+                    out.append({"warm": w, "steps": steps})
+    return out
 
 
 def make_stale() -> dict:
@@ -584,36 +758,75 @@ def run(ctx: core.Ctx) -> None:
             raise core.HarnessError(f"seam validation failed: class {k} gives {r['outcome']} end-to-end for {case}")
     ctx.cov["end_to_end_validated_representatives"] = len(reps)
     # ---- Part B: schedules ------------------------------------------------------------------
-    plans = [(2, "cold", 1), (2, "nofolder", 2), (2, "valid-quick-only", 2), (2, "empty", 2), (2, "truncated", 2), (2, "stale", 1), (2, "outdated", 1), (2, "valid", 1)]
+    plans = [(2, "cold", 1), (2, "nofolder", 2), (2, "valid-quick-only", 2), (2, "empty", 1), (2, "truncated", 2), (2, "stale", 1), (2, "outdated", 1), (2, "valid", 1)]
     if ctx.tier == "thorough":
         plans = [(2, "cold", 2), (2, "nofolder", 3), (3, "nofolder", 2), (2, "valid-quick-only", 3), (2, "empty", 3), (2, "truncated", 3), (2, "stale", 2), (2, "outdated", 2), (2, "valid", 2),
                  (3, "valid-quick-only", 2), (3, "truncated", 2), (3, "empty", 1)]
     else:
         plans += [(3, "truncated", 1), (3, "valid-quick-only", 1)]
     sched_cov = {}
-    for n, init, bound in plans:
-        frontier = [()]
+
+    def explore(n: int, init: str, bound: int, kills: list) -> None:
+        """all schedules with <= bound preemptions, for every kill in `kills` ([] = nobody is killed)"""
+        frontier = [(tuple(k) if k else None, ()) for k in (kills or [None])]
         total = 0
         maxpts = 0
         complete = True
+        nkilled = 0
         while frontier:
             if ctx.out_of_budget():
                 complete = False
                 break
-            batch = [{"n": n, "init": init, "prefix": list(p), "bound": bound} for p in frontier]
+            batch = [dict({"n": n, "init": init, "prefix": list(p), "bound": bound}, **({"kill": list(k)} if k else {})) for k, p in frontier]
             nxt = []
             for case, res in ctx.pool_map(w_sched, batch, timeout=300, chunksize=2, check_det=1 if total == 0 else 0):
-                small = {"n": n, "init": init, "prefix": case["prefix"], "bound": bound}
+                small = {k: case[k] for k in ("n", "init", "prefix", "bound", "kill") if k in case}
                 if ctx.absorb(small, res):
                     total += 1
                     maxpts = max(maxpts, res["points"])
-                    nxt += [tuple(s) for s in res["succ"]]
-                    if res.get("ops") and len(ctx.samples) < 7:
+                    nkilled += 1 if res.get("killed") else 0
+                    nxt += [(tuple(case["kill"]) if "kill" in case else None, tuple(s)) for s in res["succ"]]
+                    if res.get("ops") and not kills and len(ctx.samples) < 7:
                         ctx.sample({"schedule": small, "default_trace_ops": res["ops"][:40]})
             frontier = nxt
-        sched_cov[f"N={n},init={init},preemptions<={bound}"] = {"schedules": total, "max_points": maxpts, "complete": complete}
+        key = f"N={n},init={init},preemptions<={bound}" + (f",kill process {n - 1} at each of its first {len(kills)} scheduling points" if kills else "")
+        sched_cov[key] = {"schedules": total, "max_points": maxpts, "complete": complete}
+        if kills:
+            sched_cov[key]["schedules_in_which_the_kill_happened"] = nkilled
         ctx.count("schedules", total)
+
+    for n, init, bound in plans:
+        explore(n, init, bound, [])
+    # a peer is killed while the others are running: kill point x interleaving.  The victim is the last process; the
+    # number of its scheduling points is taken from a run of one process alone on the same start state.
+    kplans = [(2, "cold", 1), (2, "valid-quick-only", 1), (2, "truncated", 1)]
+    if ctx.tier == "thorough":
+        kplans = [(2, i, 2) for i in ("cold", "nofolder", "valid-quick-only", "empty", "truncated", "stale", "outdated", "valid")] + [(3, "cold", 1), (3, "truncated", 1)]
+    for n, init, bound in kplans:
+        if ctx.out_of_budget():
+            break
+        solo = w_sched({"n": 1, "init": init, "prefix": [], "bound": 0})
+        if "own_points" not in solo:
+            raise core.HarnessError(f"solo run failed: {solo}")
+        explore(n, init, bound, [[n - 1, k] for k in range(1, solo["own_points"][0] + 1)])
     ctx.cov["schedules"] = sched_cov
+    # ---- Part C: stale because the sources changed -------------------------------------------
+    sc = source_cases(ctx.tier)
+    nsrc = 0
+    nobs = 0
+    nprocs = 0
+    for case, res in ctx.pool_map(w_source, sc, timeout=600, chunksize=1, check_det=2):
+        if ctx.out_of_budget():
+            break
+        if ctx.absorb(case, res):
+            nsrc += 1
+            nobs += 1 if res.get("observable") else 0
+            nprocs += res.get("procs", 0)
+    if nsrc and not nobs:
+        raise core.HarnessError("source-edit family is vacuous: no edit changed the cache-disabled answers")
+    ctx.cov["source_edit_histories"] = {"histories": nsrc, "of": len(sc), "histories_whose_edits_change_the_reference_answers": nobs,
+                                        "process_runs": nprocs, "edit_alphabet": SRC_EDITS + ["revert:<edit>", "defaults+sch_mbi"]}
+    ctx.count("source_edit_histories", nsrc)
     ctx.cov["transitions"] = ctx.counters.get("schedules", 0)
     # ---- free-running pass (sanity, not coverage) --------------------------------------------
     fr = free_running(ctx)
